@@ -340,7 +340,22 @@ struct SchedCase {
     expected: Vec<Vec<bool>>,
 }
 
+#[derive(Clone, Copy)]
+enum Sched {
+    Dfs,
+    Bounded(u32, usize),
+    RoundRobin,
+    Random(u64, usize),
+}
+
 fn run_schedules(case: &SchedCase, bounded: Option<(u32, usize)>) -> (usize, Vec<String>, bool) {
+    run_sched(case, match bounded {
+        None => Sched::Dfs,
+        Some((b, c)) => Sched::Bounded(b, c),
+    })
+}
+
+fn run_sched(case: &SchedCase, sched: Sched) -> (usize, Vec<String>, bool) {
     let count = Arc::new(AtomicUsize::new(0));
     let bad: Arc<Mutex<Vec<String>>> = Arc::new(Mutex::new(vec![]));
     let rule = case.rule.clone();
@@ -376,13 +391,21 @@ fn run_schedules(case: &SchedCase, bounded: Option<(u32, usize)>) -> (usize, Vec
     let capped = Arc::new(AtomicUsize::new(0));
     let mut cfg = shuttle::Config::new();
     cfg.silence_warnings = true;
-    let res = std::panic::catch_unwind(std::panic::AssertUnwindSafe(|| match bounded {
-        None => {
+    let res = std::panic::catch_unwind(std::panic::AssertUnwindSafe(|| match sched {
+        Sched::Dfs => {
             let s = shuttle::scheduler::DfsScheduler::new(None, false);
             shuttle::Runner::new(s, cfg).run(body)
         }
-        Some((b, cap)) => {
+        Sched::Bounded(b, cap) => {
             let s = BoundedScheduler::new(b, cap, capped.clone());
+            shuttle::Runner::new(s, cfg).run(body)
+        }
+        Sched::RoundRobin => {
+            let s = shuttle::scheduler::RoundRobinScheduler::new(1);
+            shuttle::Runner::new(s, cfg).run(body)
+        }
+        Sched::Random(seed, n) => {
+            let s = shuttle::scheduler::RandomScheduler::new_from_seed(seed, n);
             shuttle::Runner::new(s, cfg).run(body)
         }
     }));
@@ -406,6 +429,7 @@ fn sched_cases(th: bool) -> Vec<SchedCase> {
         ("nested+not", "detection:\n  A: {n: {x: a, y: b}}\n  B: {f: ['a*', '?b$']}\n  condition: A and not B\ntrue_positives: []\ntrue_negatives: []\n"),
         ("quantifier", "detection:\n  A: [{f: 'a*'}, {g: x}, {h: y}]\n  condition: of(A, 2)\ntrue_positives: []\ntrue_negatives: []\n"),
         ("casts", "detection:\n  A: {f: '*a*'}\n  condition: int(g) >= 1 and str(f) == str(h) or A\ntrue_positives: []\ntrue_negatives: []\n"),
+        ("nested4", "detection:\n  A: {n: {x: {y: {z: a, w: ['b*', '?c']}}}}\n  condition: A\ntrue_positives: []\ntrue_negatives: []\n"),
     ];
     let docsets: Vec<Vec<MObj>> = {
         use crate::mdoc::{obj, s, MVal};
@@ -416,6 +440,8 @@ fn sched_cases(th: bool) -> Vec<SchedCase> {
                 MObj::new().with("g", MVal::Int(1)).with("f", s("1")).with("h", s("1")),
                 MObj::new().with("n", obj(vec![("x", s("a")), ("y", s("b"))])).with("f", s("c")),
                 MObj::new(),
+                MObj::new().with("n", obj(vec![("x", obj(vec![("y", obj(vec![("z", s("a")), ("w", s("bc"))]))]))])),
+                MObj::new().with("n", obj(vec![("x", obj(vec![("y", obj(vec![("z", s("b")), ("w", s("bc"))]))]))])),
             ],
         ]
     };
@@ -690,13 +716,65 @@ pub fn run(tier: Tier) -> i32 {
         }
         rep.stats.count(&format!("part3_{}threads_deviation_bound_completed", nthreads), completed.max(0) as u64);
     }
+    // maximal overlap: all 16 threads inside matches() at once (round-robin advances every thread
+    // by one callback in turn), plus seeded random schedules - single schedules / samples
+    {
+        let all_cases = sched_cases(false);
+        let mut overlap = 0usize;
+        for base in all_cases.iter().filter(|c| c.name.ends_with("/2threads")).step_by(2) {
+            let docs: Vec<MObj> = {
+                use crate::mdoc::{obj, s};
+                vec![
+                    MObj::new().with("f", s("ab")).with("g", s("x")).with("h", s("y")),
+                    MObj::new().with("n", obj(vec![("x", obj(vec![("y", obj(vec![("z", s("a")), ("w", s("bc"))]))]))])),
+                    MObj::new().with("n", obj(vec![("x", s("a")), ("y", s("b"))])).with("f", s("c")),
+                    MObj::new().with("g", crate::mdoc::MVal::Int(1)).with("f", s("1")).with("h", s("1")),
+                ]
+            };
+            let seqv: Vec<bool> = docs.iter().map(|d| base.rule.matches(d)).collect();
+            let n = 16usize;
+            let case = SchedCase {
+                name: format!("{}/16threads/overlap", base.name.rsplitn(2, '/').nth(1).unwrap_or("")),
+                yaml: base.yaml.clone(),
+                rule: base.rule.clone(),
+                work: (0..n).map(|t| vec![docs[t % docs.len()].clone()]).collect(),
+                expected: (0..n).map(|t| vec![seqv[t % docs.len()]]).collect(),
+            };
+            for (label, sc) in [
+                ("round-robin", Sched::RoundRobin),
+                ("random", Sched::Random(crate::report::seed(), if th { 400 } else { 60 })),
+            ] {
+                let (k, msgs, _) = run_sched(&case, sc);
+                overlap += k;
+                rep.stats.states += k as u64;
+                rep.stats.transitions += k as u64;
+                rep.stats.traces += k as u64;
+                for m in msgs {
+                    rep.stats.push_violation(Violation {
+                        signature: "verdict-differs-under-some-interleaving".into(),
+                        witness: format!("{} ({} schedule): {}", case.name, label, m),
+                        replay: json!({"kind":"schedule","rule_yaml":case.yaml,"case":case.name,"scheduler":label}),
+                    });
+                }
+            }
+        }
+        rep.stats.count("part3_overlap_schedules_16_threads(round-robin+random sample)", overlap as u64);
+    }
     rep.stats.count("part3_exhaustive_schedules_2_3_threads", total_sched as u64);
     rep.stats.count("part3_bounded_schedules_4_16_threads", bounded_total as u64);
     rep.extra.insert("schedule_cases".into(), json!(sched_detail));
-    // free-running supplement: 16 OS threads
-    {
-        let case = &sched_cases(false)[1];
-        let docs: Vec<MObj> = case.work.iter().flatten().cloned().collect();
+    // free-running supplement: 16 OS threads, on the matrix rule and on the deeply nested rule
+    for which in ["matrix/coalesce", "nested4/none"] {
+        let cases_fr = sched_cases(false);
+        let case = match cases_fr.iter().find(|c| c.name.starts_with(which)) {
+            Some(c) => c,
+            None => continue,
+        };
+        let mut docs: Vec<MObj> = case.work.iter().flatten().cloned().collect();
+        {
+            use crate::mdoc::{obj, s};
+            docs.push(MObj::new().with("n", obj(vec![("x", obj(vec![("y", obj(vec![("z", s("a")), ("w", s("bc"))]))]))])));
+        }
         let seqv: Vec<bool> = docs.iter().map(|d| case.rule.matches(d)).collect();
         let bad = Arc::new(AtomicUsize::new(0));
         let mut hs = vec![];
@@ -717,7 +795,7 @@ pub fn run(tier: Tier) -> i32 {
         for h in hs {
             let _ = h.join();
         }
-        rep.extra.insert("free_running_supplement".into(), json!({"threads":16,"calls":32000,"mismatches":bad.load(Ordering::SeqCst),"what":"uncontrolled OS threads; a sample, not part of the exhaustive claim"}));
+        rep.extra.insert(format!("free_running_supplement[{}]", which), json!({"threads":16,"calls":32000,"mismatches":bad.load(Ordering::SeqCst),"what":"uncontrolled OS threads; a sample, not part of the exhaustive claim"}));
         if bad.load(Ordering::SeqCst) > 0 {
             rep.stats.push_violation(Violation {
                 signature: "verdict-differs-under-free-running-threads".into(),
